@@ -3,6 +3,7 @@ package props
 import (
 	"bytes"
 	"context"
+	"errors"
 	"fmt"
 	"hash/fnv"
 	"io"
@@ -14,6 +15,7 @@ import (
 	"testing"
 	"time"
 
+	"github.com/gogo/protobuf/proto"
 	"github.com/ipfs/go-cid"
 	"github.com/ipfs/go-unixfsnode/data/builder"
 	"github.com/ipfs/go-unixfsnode/file"
@@ -54,10 +56,10 @@ func (h *hookState) at(site string) {
 		h.maxSeen = a
 	}
 	h.mu.Unlock()
+	n := atomic.AddUint64(&h.ctr, 1)
 	if !h.inject {
 		return
 	}
-	n := atomic.AddUint64(&h.ctr, 1)
 	switch mix64(h.seed+n) % 8 {
 	case 0, 1, 2:
 		runtime.Gosched()
@@ -78,9 +80,13 @@ func (h *hookState) hash() string {
 }
 
 type c17Result struct {
-	mu    sync.Mutex
-	diffs []string
-	ops   int64
+	mu       sync.Mutex
+	diffs    []string
+	ops      int64
+	deadlock bool   // every unfinished worker parked in a lock acquisition
+	deadSite string // innermost library function of one parked worker
+	deadMsg  string
+	stuck    bool // the round did not finish within the watchdog and is not a provable deadlock
 }
 
 func (r *c17Result) diff(format string, args ...any) {
@@ -91,15 +97,53 @@ func (r *c17Result) diff(format string, args ...any) {
 	r.mu.Unlock()
 }
 
-// runRound releases G goroutines on one shared node.
+// blockedWorkers takes one stop-the-world stack snapshot and reports how many
+// of the round's worker goroutines exist and how many of those are parked in a
+// mutex acquisition, with the innermost library function of one of them.
+func blockedWorkers() (workers, blocked int, site, excerpt string) {
+	buf := make([]byte, 4<<20)
+	buf = buf[:runtime.Stack(buf, true)]
+	for _, g := range strings.Split(string(buf), "\n\n") {
+		if !strings.Contains(g, "props.runRound.func") || strings.Contains(g, "props.runRound.func2") {
+			continue
+		}
+		workers++
+		if strings.Contains(g, "sync.(*Mutex).Lock") || strings.Contains(g, "sync.(*RWMutex).Lock") || strings.Contains(g, "sync.(*RWMutex).RLock") {
+			blocked++
+			if site == "" {
+				for _, ln := range strings.Split(g, "\n") {
+					if strings.HasPrefix(ln, "github.com/ipfs/go-unixfsnode") {
+						site = ln[:strings.LastIndex(ln, "(")]
+						site = site[strings.LastIndex(site, "/")+1:]
+						break
+					}
+				}
+				excerpt = g
+				if len(excerpt) > 1200 {
+					excerpt = excerpt[:1200]
+				}
+				excerpt = strings.ReplaceAll(strings.ReplaceAll(excerpt, "\n\t", " @ "), "\n", " | ")
+			}
+		}
+	}
+	return
+}
+
+// runRound releases G goroutines on one shared node. While waiting for them
+// it watches a progress counter; when nothing has moved for a while it takes
+// stack snapshots, and if every unfinished worker is parked in a mutex
+// acquisition (so that nobody is left who could release it) the round is a
+// deadlock. Wall-clock time only decides when to look, never the verdict.
 func runRound(c *mon.Case, node ipld.Node, G int, hs *hookState, seed int64, work func(g int, rr *rand.Rand, node ipld.Node, res *c17Result)) *c17Result {
 	res := &c17Result{}
 	var wg sync.WaitGroup
+	var finished int32
 	start := make(chan struct{})
 	for g := 0; g < G; g++ {
 		wg.Add(1)
 		go func(g int) {
 			defer wg.Done()
+			defer atomic.AddInt32(&finished, 1)
 			rr := rand.New(rand.NewSource(seed*131 + int64(g)))
 			<-start
 			atomic.AddInt32(&hs.active, 1)
@@ -114,8 +158,54 @@ func runRound(c *mon.Case, node ipld.Node, G int, hs *hookState, seed int64, wor
 		}(g)
 	}
 	close(start)
-	wg.Wait()
-	return res
+	done := make(chan struct{})
+	go func() { wg.Wait(); close(done) }()
+	progress := func() int64 {
+		return atomic.LoadInt64(&res.ops) + int64(atomic.LoadUint64(&hs.ctr)) + int64(atomic.LoadInt32(&finished))<<32
+	}
+	last, still := progress(), 0
+	for waited := 0; ; waited++ {
+		select {
+		case <-done:
+			return res
+		case <-time.After(250 * time.Millisecond):
+		}
+		if p := progress(); p != last {
+			last, still = p, 0
+			continue
+		}
+		still++
+		if still < 12 {
+			continue
+		}
+		w1, b1, site, excerpt := blockedWorkers()
+		unfinished := G - int(atomic.LoadInt32(&finished))
+		if unfinished > 0 && w1 >= unfinished && b1 == w1 && progress() == last {
+			res.deadlock = true
+			res.deadSite = site
+			res.deadMsg = fmt.Sprintf("deadlock: %d of %d goroutines have returned, each of the other %d is parked in a mutex acquisition inside the library (%s) and no operation has completed for %d ms; one of them: %s", G-unfinished, G, unfinished, site, still*250, excerpt)
+			return res
+		}
+		if waited > 4*60*20 {
+			res.stuck = true
+			return res
+		}
+	}
+}
+
+// errClass reduces an error to what a caller can tell apart.
+func errClass(err error) string {
+	switch {
+	case isNotFound(err):
+		return "no such entry"
+	case errors.Is(err, hamt.ErrHAMTFanoutMismatch):
+		return "fanout mismatch"
+	}
+	var nf store.ErrNotFound
+	if errors.As(err, &nf) || strings.Contains(err.Error(), "verif store: block not found") {
+		return "block not found"
+	}
+	return err.Error()
 }
 
 func TestC17(t *testing.T) {
@@ -228,6 +318,14 @@ func TestC17(t *testing.T) {
 							c.Count("overlapped_rounds", 1)
 						}
 						c.Count("hook_events", int64(len(hs.events)))
+						if res.stuck {
+							c.Inconclusive("round %d did not finish within the watchdog and is not a provable deadlock", round)
+							return
+						}
+						if res.deadlock {
+							c.Violation("C17|deadlock|"+res.deadSite, "fanout %d, %d entries, %d goroutines, hooks=%v, round %d: %s", d.Fanout, d.N, G, inject, round, res.deadMsg)
+							return
+						}
 						for _, dmsg := range res.diffs {
 							c.Violation("C17|result-differs|dir", "fanout %d, %d entries, %d goroutines, hooks=%v, round %d: %s", d.Fanout, d.N, G, inject, round, dmsg)
 						}
@@ -238,6 +336,182 @@ func TestC17(t *testing.T) {
 					}
 				})
 			}
+		}
+	}
+	// damaged directories: one child shard cannot be loaded, or declares another fanout than its
+	// parent. What a call returns alone is taken on a fresh (cold) node per call; on the shared node,
+	// cold or warmed by other goroutines, every call has to return the same
+	for _, damage := range []string{"missing-child", "fanout-mismatch-child", "both"} {
+		for _, G := range []int{2, 4, 8, 16} {
+			damage, G := damage, G
+			r.Case(fmt.Sprintf("damaged-dir/%s/G%d", damage, G), map[string]any{"damage": damage, "goroutines": G, "rounds": rounds}, func(c *mon.Case) {
+				rr := c.Rand()
+				st := store.New()
+				names := namesFor(c, dirCase{Family: "ascii", N: 300})
+				entries, _, _ := childEntries(st, names)
+				l, _, err := builder.BuildUnixFSShardedDirectory(8, multihash.MURMUR3X64_64, entries, st.LinkSystem(false))
+				if err != nil {
+					c.Harness("build: %v", err)
+					return
+				}
+				w := walkerFor(st)
+				rootN, err := w.Node(linkCid(l))
+				if err != nil {
+					c.Harness("oracle: %v", err)
+					return
+				}
+				var shardIdx []int
+				for i, lk := range rootN.Links {
+					if len(lk.Name) == 1 {
+						shardIdx = append(shardIdx, i)
+					}
+				}
+				if len(shardIdx) < 3 {
+					c.Harness("root has only %d child shards", len(shardIdx))
+					return
+				}
+				mon.Shuffle(rr, shardIdx)
+				links := make([]pbLinkSpec, len(rootN.Links))
+				for i, lk := range rootN.Links {
+					links[i] = pbLinkSpec{Name: strp(lk.Name), Tsize: u64p(lk.Tsize), Cid: lk.Cid}
+				}
+				if damage != "missing-child" {
+					// the same child shard, declaring fanout 16 (same prefix width, valid on its own)
+					v := rootN.Links[shardIdx[0]]
+					cn, err := w.Node(v.Cid)
+					if err != nil || cn.FS == nil {
+						c.Harness("oracle: child shard: %v", err)
+						return
+					}
+					m := *cn.FS
+					m.Fanout = proto.Uint64(16)
+					cl := make([]pbLinkSpec, len(cn.Links))
+					for i, lk := range cn.Links {
+						cl[i] = pbLinkSpec{Name: strp(lk.Name), Tsize: u64p(lk.Tsize), Cid: lk.Cid}
+					}
+					links[shardIdx[0]].Cid = st.PutBlock(1, cid.DagProtobuf, encodePB(mustMarshal(&m), true, cl))
+				}
+				if damage != "fanout-mismatch-child" {
+					st.Absent = map[string]bool{rootN.Links[shardIdx[1]].Cid.KeyString(): true}
+				}
+				root := st.PutBlock(1, cid.DagProtobuf, encodePB(mustMarshal(rootN.FS), true, links))
+				ls := st.LinkSystem(true)
+				raw, err := loadRaw(ls, root)
+				if err != nil {
+					c.Harness("load: %v", err)
+					return
+				}
+				lookupOutcome := func(n ipld.Node, name string) string {
+					v, err := n.LookupByString(name)
+					if err != nil {
+						return "error: " + errClass(err)
+					}
+					cc, e := asCid(v)
+					if e != nil {
+						return "not a link: " + e.Error()
+					}
+					return cc.String()
+				}
+				iterOutcome := func(n ipld.Node) string {
+					it := n.MapIterator()
+					f := fnv.New64a()
+					cnt, errs := 0, 0
+					var firstErr string
+					for i := 0; !it.Done() && i < 5000; i++ {
+						k, v, err := it.Next()
+						if err != nil {
+							errs++
+							if firstErr == "" {
+								firstErr = errClass(err)
+							}
+							continue
+						}
+						ks, _ := k.AsString()
+						cc, _ := asCid(v)
+						f.Write([]byte(ks + "=" + cc.String() + ";"))
+						cnt++
+					}
+					return fmt.Sprintf("%d entries (hash %x), %d errors (first: %s)", cnt, f.Sum64(), errs, firstErr)
+				}
+				fresh := func() ipld.Node {
+					n, err := reify(ls, raw)
+					if err != nil {
+						return nil
+					}
+					return n
+				}
+				if fresh() == nil {
+					c.Harness("reify of the damaged root failed")
+					return
+				}
+				probes := append([]string(nil), names...)
+				mon.Shuffle(rr, probes)
+				probes = probes[:120]
+				for i := 0; i < 30; i++ {
+					probes = append(probes, probes[i]+"\x00~not-a-member")
+				}
+				alone := map[string]string{}
+				classes := map[string]bool{}
+				for _, p := range probes {
+					alone[p] = lookupOutcome(fresh(), p)
+					if strings.HasPrefix(alone[p], "error: ") {
+						classes[alone[p]] = true
+					}
+				}
+				aloneLen := fresh().Length()
+				aloneIter := iterOutcome(fresh())
+				c.Count("damaged_dir_error_classes", int64(len(classes)))
+				for round := 0; round < rounds; round++ {
+					hs := &hookState{seed: c.Seed + uint64(round), inject: round%2 == 0}
+					hamt.SetVerifHook(hs.at)
+					node := fresh()
+					if round%3 == 2 {
+						// warmed by one sequential pass first
+						iterOutcome(node)
+					}
+					res := runRound(c, node, G, hs, int64(c.Seed)+int64(round), func(g int, rr *rand.Rand, node ipld.Node, res *c17Result) {
+						for i := 0; i < 40; i++ {
+							atomic.AddInt64(&res.ops, 1)
+							switch op := rr.Intn(20); {
+							case op < 16:
+								p := probes[rr.Intn(len(probes))]
+								if got := lookupOutcome(node, p); got != alone[p] {
+									res.diff("LookupByString(%q) gives %q on the shared node, %q alone", p, got, alone[p])
+								}
+							case op < 18:
+								if got := node.Length(); got != aloneLen {
+									res.diff("Length() = %d on the shared node, %d alone", got, aloneLen)
+								}
+							default:
+								if got := iterOutcome(node); got != aloneIter {
+									res.diff("iteration gives %q on the shared node, %q alone", got, aloneIter)
+								}
+							}
+						}
+					})
+					hamt.SetVerifHook(nil)
+					c.Count("rounds", 1)
+					c.Count("ops_compared", res.ops)
+					if hs.maxSeen >= 2 {
+						c.Count("overlapped_rounds", 1)
+					}
+					if res.stuck {
+						c.Inconclusive("round %d did not finish within the watchdog and is not a provable deadlock", round)
+						return
+					}
+					if res.deadlock {
+						c.Violation("C17|deadlock|"+res.deadSite, "damaged directory (%s), %d goroutines, round %d: %s", damage, G, round, res.deadMsg)
+						return
+					}
+					for _, dmsg := range res.diffs {
+						c.Violation("C17|result-differs|damaged-dir", "%s, %d goroutines, round %d: %s", damage, G, round, dmsg)
+					}
+					c.Sig(fmt.Sprintf("damaged-dir|%s|G%d|%s", damage, G, hs.hash()), hs.maxSeen >= 2)
+					if len(res.diffs) > 0 {
+						return
+					}
+				}
+			})
 		}
 	}
 	type fileCfg struct {
@@ -275,6 +549,8 @@ func TestC17(t *testing.T) {
 		{"hand-pb-nobs", handF(handFileOpts{Width: 3, PBLeaves: true, NoBlockSize: true, LeafType: 2}, 600, 20)},
 		{"hand-pb-nobs-nofs", handF(handFileOpts{Width: 2, PBLeaves: true, NoBlockSize: true, NoFileSize: true, LeafType: 0}, 300, 10)},
 		{"hand-pb-sized", handF(handFileOpts{Width: 4, PBLeaves: true, LeafType: 2}, 800, 25)},
+		{"built-w3-3level+nodereifier", builtFile(3, "size-16", 300)},
+		{"hand-pb-sized+nodereifier", handF(handFileOpts{Width: 4, PBLeaves: true, LeafType: 2}, 400, 25)},
 	}
 	for _, fcfg := range files {
 		for _, G := range []int{2, 4, 8, 16} {
@@ -284,7 +560,11 @@ func TestC17(t *testing.T) {
 					st := store.New()
 					root, content := fcfg.Make(st, c.Rand())
 					ls := st.LinkSystem(true)
-					raw, err := loadRaw(ls, root)
+					if strings.HasSuffix(fcfg.Name, "+nodereifier") {
+						// the caller's link system reifies every block it loads
+						ls = st.LinkSystemCfg(true, false, true)
+					}
+					raw, err := loadRaw(st.LinkSystem(false), root)
 					if err != nil {
 						c.Harness("load: %v", err)
 						return
@@ -358,6 +638,14 @@ func TestC17(t *testing.T) {
 							c.Count("overlapped_rounds", 1)
 						}
 						c.Count("hook_events", int64(len(hs.events)))
+						if res.stuck {
+							c.Inconclusive("round %d did not finish within the watchdog and is not a provable deadlock", round)
+							return
+						}
+						if res.deadlock {
+							c.Violation("C17|deadlock|"+res.deadSite, "%s, %d goroutines, hooks=%v, round %d: %s", fcfg.Name, G, inject, round, res.deadMsg)
+							return
+						}
 						for _, dmsg := range res.diffs {
 							c.Violation("C17|result-differs|file", "%s, %d goroutines, hooks=%v, round %d: %s", fcfg.Name, G, inject, round, dmsg)
 						}
